@@ -35,6 +35,39 @@ Init == /\ m = DeclareAll(InitMgr(NameSeq), InitDeclared)
         /\ h = [k \in Slots |-> 0]
         /\ last = <<"init">>
 
+(* the functions `build` may construct: overridden per configuration
+   (CONSTANT BuildFuns <- FunsQ / AllFuns / RelFuns) *)
+BuildFuns == {}
+NVs == Len(NameSeq)
+X(k) == VarF(NVs, k)
+NotX(k) == NotF(NVs, X(k))
+AllFuns == SUBSET Univ(NVs)
+FunsQ ==      \* a few functions with shared subgraphs, complemented roots, skipped levels
+  IF NVs = 2
+  THEN {X(1), X(2), AndF(X(1), X(2)), OrF(X(1), NotX(2)), XorF(X(1), X(2)), AndF(NotX(1), NotX(2))}
+  ELSE {X(1), X(NVs), AndF(X(1), X(2)), IteF(X(1), X(2), X(3)), OrF(X(1), AndF(X(2), NotX(3)))}
+FunsS ==      \* the small set, for configurations with many operand positions per action
+  IF NVs = 2 THEN {X(1), AndF(X(1), X(2)), OrF(X(1), NotX(2)), XorF(X(1), X(2))}
+  ELSE {X(1), AndF(X(1), X(2)), IteF(X(1), X(2), X(3)), OrF(X(1), AndF(X(2), NotX(3)))}
+FunsD ==      \* the larger set of the thorough configurations
+  IF NVs = 2 THEN AllFuns
+  ELSE FunsQ \cup {XorF(X(2), X(3)), AndF(X(1), X(3)), XorF(X(1), XorF(X(2), X(3))),
+                   OrF(AndF(X(1), X(2)), OrF(AndF(X(1), X(3)), AndF(X(2), X(3))))}
+RelFuns ==    \* transition relations over (x = 1, x' = 2, free = 3) and targets over (1, 3)
+  {X(1), X(3), AndF(X(1), X(3)), XorF(X(1), X(2)), EquivF(NVs, X(2), AndF(X(1), X(3))),
+   OrF(X(2), X(3)), IteF(X(3), X(1), X(2)), AndF(NotX(1), X(2))}
+(* two operands already built and held: every binary call is one step away.
+   (for the operand-heavy configurations: Let2, Rel) *)
+Init2 == \E F1, F2 \in BuildFuns :
+           LET m0 == DeclareAll(InitMgr(NameSeq), InitDeclared)
+               b1 == BuildTT(m0, F1)
+               m1 == [b1.s EXCEPT !.ref = Incr(@, b1.r)]
+               b2 == BuildTT(m1, F2)
+               m2 == [b2.s EXCEPT !.ref = Incr(@, b2.r)]
+           IN /\ m = m2
+              /\ h = [k \in Slots |-> IF k = 1 THEN b1.r ELSE IF k = 2 THEN b2.r ELSE 0]
+              /\ last = <<"init2", F1, F2>>
+
 LedgerOf(hh) == [n \in {Abs(hh[k]) : k \in {j \in Slots : hh[j] # 0}} |->
                    Cardinality({k \in Slots : hh[k] # 0 /\ Abs(hh[k]) = n})]
 Ledger == LedgerOf(h)
@@ -44,9 +77,21 @@ Sym == {<<0, 1>>, <<0, -1>>} \cup {<<k, sg>> : k \in {j \in Slots : h[j] # 0}, s
 Val(a) == IF a[1] = 0 THEN a[2] ELSE a[2] * h[a[1]]
 NLv == Len(m.order)
 
-Put(k, res) == /\ h[k] = 0
-               /\ m' = [res.s EXCEPT !.ref = Incr(@, res.r)]     \* the user increfs what it keeps
+(* the user keeps the result in slot k (incref).  Slots are interchangeable,
+   so a result goes to the FIRST free slot; when none is free the user
+   overwrites one -- `u = bdd.apply('and', u, v)` -- and the reference it held
+   is released (decref) after the call: the call itself ran with every slot
+   held, which is what lets two held operands meet in one operation. *)
+FirstFree(k) == /\ h[k] = 0 /\ \A j \in Slots : h[j] = 0 => k <= j
+SlotFor(k) == IF \E j \in Slots : h[j] = 0 THEN FirstFree(k) ELSE TRUE
+Put(k, res) == /\ SlotFor(k)
+               /\ m' = [res.s EXCEPT !.ref = IF h[k] = 0 THEN Incr(@, res.r)
+                                             ELSE Decr(Incr(@, res.r), h[k])]
                /\ h' = [h EXCEPT ![k] = res.r]
+DoBuild(k, F) == /\ "build" \in Actions
+                 /\ \A v \in Support(NV(m), F) : m.names[v] \in Declared(m)
+                 /\ Put(k, BuildTT(m, F))
+                 /\ last' = <<"build", k, F>>
 DoVar(k, nm) == /\ "var" \in Actions /\ nm \in Declared(m)
                 /\ Put(k, FindOrAdd(m, LevelOf(m, nm), -1, 1))
                 /\ last' = <<"var", k, nm>>
@@ -110,7 +155,7 @@ DoDrop(k) == /\ "drop" \in Actions /\ h[k] # 0
              /\ m' = [m EXCEPT !.ref = Decr(@, h[k])]
              /\ h' = [h EXCEPT ![k] = 0]
              /\ last' = <<"drop", k>>
-DoDup(k, j) == /\ "dup" \in Actions /\ h[k] = 0 /\ h[j] # 0    \* a second reference to the same node
+DoDup(k, j) == /\ "dup" \in Actions /\ FirstFree(k) /\ h[j] # 0    \* a second reference to the same node
                /\ m' = [m EXCEPT !.ref = Incr(@, h[j])]
                /\ h' = [h EXCEPT ![k] = h[j]]
                /\ last' = <<"dup", k, j>>
@@ -146,6 +191,7 @@ DoUndeclare(gone) == /\ "undeclare" \in Actions
 
 Next ==
   \/ \E k \in Slots, nm \in Names : DoVar(k, nm)
+  \/ \E k \in Slots, F \in BuildFuns : DoBuild(k, F)
   \/ \E k \in Slots : \E g, u, v \in Sym : DoIte(k, g, u, v)
   \/ \E k \in Slots, op \in ApplyOps : \E u, v \in Sym : DoApply(k, op, u, v)
   \/ \E k \in Slots, u \in Sym, Q \in SUBSET Declared(m), fa \in BOOLEAN : DoQuantify(k, u, Q, fa)
@@ -166,6 +212,10 @@ Next ==
   \/ \E nm \in Names : DoAddVar(nm)
   \/ \E gone \in SUBSET Declared(m) : DoUndeclare(gone)
 Spec == Init /\ [][Next]_vars
+(* bounded exploration: the depth guard comes FIRST, so that the successors of
+   the last level are never computed (a CONSTRAINT would compute them, check
+   the action properties on them, and only then discard them) *)
+NextB == TLCGet("level") < MaxDepth /\ Next
 
 Bound == Cardinality(DOMAIN m.succ) <= MaxNodes /\ TLCGet("level") <= MaxDepth
 
@@ -177,6 +227,11 @@ InvCacheSound == \A key \in DOMAIN m.cache : CacheEntrySound(m, key[1], key[2], 
 InvMinFree == MinFreeOK(m)
 InvDenMap == DenMapAgrees(m) /\ MaskMapAgrees(m) /\ DenInjectiveFast(m) = DenInjective(m)
 InvHeldLive == \A k \in Slots : h[k] # 0 => IsRef(m, h[k])
+
+(* NON-VACUITY PROBE (expected to be VIOLATED): "every stored node tests one
+   variable over the constants".  A configuration in which this holds never
+   builds a two-level diagram and its other invariants say little. *)
+ProbeFlat == \A n \in Nodes(m) \ {1} : Abs(m.succ[n][2]) = 1 /\ Abs(m.succ[n][3]) = 1
 
 (* every kept handle: same number, same function (by name), same external count *)
 HeldSameStep ==
@@ -190,6 +245,7 @@ NewRef == h'[last'[2]]
 StepOK ==
   LET a == last' IN
   CASE a[1] = "var" -> VarC(m, m', a[3], NewRef)
+    [] a[1] = "build" -> ResultIs(m', NewRef, a[3])
     [] a[1] = "ite" -> IteC(m, m', Lv(a[3]), Lv(a[4]), Lv(a[5]), NewRef)
     [] a[1] = "apply" -> ApplyBinC(m, m', a[3], Lv(a[4]), Lv(a[5]), NewRef)
     [] a[1] = "quantify" -> QuantifyC(m, m', Lv(a[3]), a[4], a[5], NewRef)
